@@ -321,7 +321,7 @@ CLAIM = {
             "MIR) may only live in uncalled functions; (b) SCC analysis of the parser: each recursion cycle must contain a depth check. "
             "These are the statically visible ways a statement can abort the process regardless of data; general panic freedom "
             "depends on runtime values and is not claimed. (c) temporary SessionConfig overrides are restored on every exit of the async "
-            "bind body (each `?` in the unrestored region examined), so a failed statement leaves the settings as they were.",
+            "bind body (each `?` in the unrestored region examined), so a failed statement leaves the settings as they were. Plus: in binder/planner/resolver code, indexing a collection with the enumerate() position of another collection is dominated by a comparison of two lengths.",
     "note": "trusted: rustc MIR + span expansion data; class-hierarchy call graph (dyn/generic calls go to every impl); depth-check idiom = "
             "comparison of a *depth* field/local with a limit",
     "technique": "static analysis: call-graph reachability + SCC (recursion) rule over MIR facts (rustc_private driver)",
